@@ -130,6 +130,7 @@ func genLib(r *core.RNG, tier string) *libScenario {
 		}
 		sc.Keys = append(sc.Keys, k)
 	}
+	sc.Arena = r.Chance(1, 5)
 	nb := r.Intn(3)
 	for i := 0; i < nb; i++ {
 		b := genBody(r, tier)
